@@ -160,6 +160,10 @@ def run_check(prop, mod, tier, level, explanation, assumptions, trusted_base, x8
         for i in range(len(cases)):
             results.extend(_run_case(i)[0])
 
+    if os.environ.get('VERIF_DUMP'):
+        with open(os.environ['VERIF_DUMP'], 'w') as f:
+            for r in results:
+                f.write(json.dumps(r) + '\n')
     known = load_known(prop)
     floors = {}
     fp = os.path.join(VERIF, 'rules', 'expect.json')
